@@ -43,6 +43,7 @@ def setup(ctx):
     ctx.require("monitor", "l2_slow_handler_responses", 10)
     ctx.require("monitor", "l2_bounded_pipe", 20)
     ctx.require("monitor", "l2_other_success_statuses", 20)
+    ctx.require("monitor", "l2_empty_meta", 10)
     ctx.require("monitor", "l2_text_bodies_with_charset_parameter", 15)
     ctx.require("monitor", "static_files_rewritten_while_serving", 12)
     ctx.require("monitor", "static_files_with_special_text", 8)
@@ -171,6 +172,10 @@ def run_l2(ctx):
                             "text/gemini; lang=de", "text/plain; charset=ascii")[(idx // 2) % 9]
                     if "charset" in meta:
                         ctx.count("monitor", "l2_text_bodies_with_charset_parameter")
+                if idx % 7 == 3:
+                    # an empty meta is a meta too (the default media type applies): header "2x " + CRLF, then the body
+                    meta = ""
+                    ctx.count("monitor", "l2_empty_meta")
                 mode = ("sync", "async", "sync+client-half-close", "async-slow+late-client-bytes", "async-45s")[(idx + idx // 5) % 5]
 
                 # every success status carries its body, not only 20
